@@ -449,6 +449,30 @@ pub fn check_numeral_text(with: &Dict, without: &Dict, text: &str, standalone: O
             return;
         }
     };
+    // a numeral joined from several tokens is one token in every split mode (a joined token is no dictionary word and
+    // has no units of its own), whatever units the words it was joined from declare
+    {
+        let multi: Vec<&Tok> = tw.iter().filter(|t| to.iter().filter(|p| p.begin >= t.begin && p.end <= t.end && p.begin != p.end).count() > 1).collect();
+        if !multi.is_empty() {
+            for (mode, mname) in [(Mode::A, "A"), (Mode::B, "B")] {
+                o.evaluations += 1;
+                match catch(|| analyze(with, mode, text)) {
+                    Err(p) => o.fail(Failure::panic(&format!("{:?} mode {}", text, mname), &p)),
+                    Ok(Err(e)) => o.fail(Failure::new("analysis-error", format!("{:?} mode {}: {:?}", text, mname, e))),
+                    Ok(Ok(ta)) => {
+                        for t in &multi {
+                            if !ta.iter().any(|x| x.begin == t.begin && x.end == t.end && x.normalized == t.normalized) {
+                                o.fail(Failure::new(
+                                    "joined-numeral-split-again",
+                                    format!("{:?}: the numeral {:?} is one token normalised to {:?} in mode C, but mode {} reports {:?}", text, t.surface, t.normalized, mname, ta.iter().filter(|x| x.begin >= t.begin && x.end <= t.end).map(|x| (x.surface.clone(), x.normalized.clone())).collect::<Vec<_>>()),
+                                ));
+                            }
+                        }
+                    }
+                }
+            }
+        }
+    }
     // joined tokens
     for t in &tw {
         let inner: Vec<&Tok> = to.iter().filter(|p| p.begin >= t.begin && p.end <= t.end && !(p.begin == p.end)).collect();
@@ -553,6 +577,9 @@ pub fn numeral_spec(name: &str, plugin: bool) -> WorldSpec {
     s.system.push(Row::new("x", 1, 1, 3000, P_NOUN));
     // a word that begins and ends with a digit but is no numeral
     s.system.push(Row::new("1x1", 1, 1, -9000, P_NOUN));
+    // numerals that are dictionary words of several characters, declaring units of their own
+    s.system.push(Row::new("三十", 9, 9, -3000, P_NUM).splits("C", "三,名詞,数詞,*,*,*,*,三/十,名詞,数詞,*,*,*,*,十", "三,名詞,数詞,*,*,*,*,三/十,名詞,数詞,*,*,*,*,十"));
+    s.system.push(Row::new("10", 9, 9, -3000, P_NUM).splits("C", "1,名詞,数詞,*,*,*,*,1/0,名詞,数詞,*,*,*,*,0", "*"));
     if plugin {
         s.plugins["pathRewritePlugin"] = json!([join_numeric(true)]);
     }
